@@ -17,7 +17,7 @@ def parseCert (s : String) : Option (Cert × String) :=
     match id.toNat?, subj.toNat?, iss.toNat?, key.toNat?, signer.toNat?, optNat ski, optNat aki, nb.toInt?, na.toInt?, mpl.toInt?, ku.toNat?, (splitL eku).mapM String.toNat? with
     | some id, some subj, some iss, some key, some signer, some ski, some aki, some nb, some na, some mpl, some ku, some eku =>
       some (⟨id, subj, iss, key, signer, ski, aki, nb, na, bc == "1", ca == "1", mpl, ku, splitL perm, splitL dns, splitL ips,
-             str cn, eku, ueku == "1", crit == "1"⟩, pool)
+             str cn, eku, ueku == "1", crit == "1", if bc == "v1" then 1 else if bc == "v2" then 2 else 3⟩, pool)
     | _, _, _, _, _, _, _, _, _, _, _, _ => none
   | _ => none
 
